@@ -7,6 +7,7 @@
 -/
 import WR.C05.LemmasMatch
 import WR.C05.LemmasSpec
+import WR.C05.LemmasDom
 namespace WR.Props.C05
 open WR.C05 WR.C05.Spec WR.C05.Lemmas
 
@@ -58,7 +59,7 @@ example : valOk .pre ['x', ' '] = true := by decide
   blank `v` (the code tests the attribute for blankness, not the value for emptiness).
 -/
 mutual
-  theorem matches_iff_spec_partial {S : Loc → Prop} (hS : DomOk S) :
+theorem matches_iff_spec_partial {S : Loc → Prop} (hS : DomOk S) :
       ∀ (s : Sel), selOk s = true → ∀ l, S l → (selMatch s l = true ↔ Matches s l)
     | .tag name, _, l, _ => tag_iff name l
     | .cls name, hs, l, hl => cls_iff name l (hS.ok l hl) (by simpa [selOk] using hs)
@@ -167,14 +168,14 @@ mutual
               have := has e (by rw [h1]; simp)
               simp [IsElem] at he
               simp [he] at this
-  theorem matchAny_iff_spec {S : Loc → Prop} (hS : DomOk S) :
+theorem matchAny_iff_spec {S : Loc → Prop} (hS : DomOk S) :
       ∀ (ss : List Sel), selsOk ss = true → ∀ l, S l → (matchAny ss l = true ↔ MatchesAny ss l)
     | [], _, l, _ => by simp [matchAny, MatchesAny]
     | s :: ss, hs, l, hl => by
       have hs' : selOk s = true ∧ selsOk ss = true := by simpa [selsOk] using hs
       simp only [matchAny, MatchesAny, Bool.or_eq_true,
         matches_iff_spec_partial hS s hs'.1 l hl, matchAny_iff_spec hS ss hs'.2 l hl]
-  theorem matchAll_iff_spec {S : Loc → Prop} (hS : DomOk S) :
+theorem matchAll_iff_spec {S : Loc → Prop} (hS : DomOk S) :
       ∀ (ss : List Sel), selsOk ss = true → ∀ l, S l → (matchAll ss l = true ↔ MatchesAll ss l)
     | [], _, l, _ => by simp [matchAll, MatchesAll]
     | s :: ss, hs, l, hl => by
@@ -193,7 +194,37 @@ theorem matches_only_elements {S : Loc → Prop} (hS : DomOk S) (s : Sel) (hs : 
     (l : Loc) (hl : S l) (h : selMatch s l = true) : l.kind = .elem :=
   matches_elem s l ((matches_iff_spec_partial hS s hs l hl).1 h)
 
+/-- the nodes of any tree form a `DomOk` set as soon as each of them is `LocalOk` -/
+theorem document_domOk (root : Node) (h : ∀ l ∈ allLocs root, LocalOk l) :
+    DomOk (fun l => l ∈ allLocs root) :=
+  domOk_allLocs root h
+
+/-- C05, matching: for every tree whose nodes are `LocalOk`, every selector of the proved domain and
+    every node of the tree, the model's `Match` is the Selectors relation. -/
+theorem matches_iff_spec_document_partial (root : Node) (h : ∀ l ∈ allLocs root, LocalOk l)
+    (s : Sel) (hs : selOk s = true) (l : Loc) (hl : l ∈ allLocs root) :
+    selMatch s l = true ↔ Matches s l :=
+  matches_iff_spec_partial (domOk_allLocs root h) s hs l hl
+
 /-! ### the hypotheses are satisfiable; the excluded inputs are genuine counterexamples -/
+
+/-- `<html><body><a></a> <b k="x"><!----></b></body></html>` under its Document node -/
+def exampleDoc : Node :=
+  .mk .other [] [] [.mk .elem htmlTag [] [.mk .elem ['b', 'o', 'd', 'y'] [] [
+    .mk .elem ['a'] [] [], .mk .text [' '] [] [], .mk .elem ['b'] [(['k'], ['x'])] [.mk .comment [] [] []]]]]
+
+example : ∀ l ∈ allLocs exampleDoc, LocalOk l := by
+  intro l hl
+  simp only [allLocs, exampleDoc, allNode, allList, List.cons_append, List.nil_append, List.append_nil,
+    List.mem_cons, List.not_mem_nil, or_false] at hl
+  rcases hl with rfl | rfl | rfl | rfl | rfl | rfl | rfl
+  all_goals
+    refine ⟨?_, ?_, ?_, ?_, other_ok_of_none ?_⟩
+  all_goals simp [Loc.kind, Loc.data, Loc.attrs, Node.kind, Node.data, Node.attrs, Node.children, Loc.parent?,
+      Loc.plug, Loc.children, Loc.childrenAux, Loc.prevSibs, Loc.prevAux, htmlTag, isGoSpace, isDocWs]
+
+example : selOk (.combined (.rel .not [.cls ['c'], .attr ['k'] ['x'] .pre true]) .adj (.compound [] [.tag ['b'], .nth (-2) 5 true true])) = true := by
+  decide
 
 /-- the empty document satisfies `DomOk` (see `domOk_allLocs` for every well-formed tree) -/
 example : DomOk (fun l => l = ⟨.mk .other [] [] [], []⟩) where
@@ -249,7 +280,7 @@ theorem includes_empty_value_witness :
   weighs (0,0,0) in the code, (0,1,0) by the definition — witness below.
 -/
 mutual
-  theorem specificity_eq_spec_partial :
+theorem specificity_eq_spec_partial :
       ∀ (s : Sel), weighOk s = true → HasSpecificity s (specificity s)
     | .tag _, _ => by simp [HasSpecificity, specificity]
     | .cls _, _ => by simp [HasSpecificity, specificity]
@@ -273,7 +304,7 @@ mutual
       have h' : weighOk a = true ∧ weighOk d = true := by simpa [weighOk] using h
       simp only [HasSpecificity, specificity]
       exact ⟨_, _, specificity_eq_spec_partial a h'.1, specificity_eq_spec_partial d h'.2, rfl⟩
-  theorem list_specificity_partial :
+theorem list_specificity_partial :
       ∀ (ss : List Sel), weighsOk ss = true → ListSpecificity ss (ss.map specificity)
     | [], _ => by simp [ListSpecificity]
     | s :: ss, h => by
